@@ -1375,5 +1375,179 @@ theorem abs_repr {a x : Num} {va : ℚ} (pa : a.PosDen)
   rw [vx, val_eq_of ha]; congr 1
   rw [abs_div]; simp
 
+/-! ### `divAll`: the guard on the exact prefix -/
+
+theorem notReal_eq_isExact (x : Num) : x.notReal = x.isExact := by cases x <;> rfl
+
+/-- `isExactZero`: an exact number whose numerator is 0 -/
+theorem isExactZero_iff {z : Num} : z.isExactZero = true ↔ z.isExact = true ∧ z.num = 0 := by
+  cases z with
+  | int i =>
+    by_cases h : i = 0
+    · subst h; simp [isExactZero, isExact, num]
+    · simp [isExactZero, isExact, num, h]
+  | rat n d =>
+    by_cases h : n = 0
+    · subst h; simp [isExactZero, isExact, num]
+    · simp [isExactZero, isExact, num, h]
+  | real r => simp [isExactZero, isExact]
+
+theorem divAll_of_guard {xs : List Num} (h : (exactDivisors xs).any isExactZero = true) :
+    divAll xs = .error .divZero := by
+  unfold divAll; rw [if_pos h]
+
+theorem divAll_of_not_guard {xs : List Num} (h : (exactDivisors xs).any isExactZero = false) :
+    divAll xs = divFold xs := by
+  unfold divAll; rw [if_neg (by simp [h])]
+
+theorem divFold_cons (x : Num) {ys : List Num} (h : ys ≠ []) : divFold (x :: ys) = ys.foldlM div x := by
+  cases ys with
+  | nil => exact absurd rfl h
+  | cons y rest => rw [List.foldlM_cons]; rfl
+
+theorem exactDivisors_cons {x : Num} {ys : List Num} (h : ys ≠ []) :
+    exactDivisors (x :: ys) = if x.notReal then ys.takeWhile notReal else [] := by
+  cases ys with
+  | nil => exact absurd rfl h
+  | cons y rest =>
+    show ((x :: y :: rest).takeWhile notReal).drop 1 = _
+    rw [List.takeWhile_cons]
+    split <;> rfl
+
+theorem mem_takeWhile_split {α} {p : α → Bool} {z : α} : ∀ {l : List α}, z ∈ l.takeWhile p →
+    ∃ pre post, l = pre ++ z :: post ∧ ∀ y ∈ pre, p y = true
+  | [], h => by simp at h
+  | a :: l, h => by
+    rw [List.takeWhile_cons] at h
+    split at h
+    · rename_i hp
+      rcases List.mem_cons.mp h with rfl | h'
+      · exact ⟨[], l, rfl, by simp⟩
+      · obtain ⟨pre, post, rfl, hpre⟩ := mem_takeWhile_split h'
+        exact ⟨a :: pre, post, rfl, by
+          intro y hy
+          rcases List.mem_cons.mp hy with rfl | hy
+          · exact hp
+          · exact hpre y hy⟩
+    · simp at h
+
+/-- the meaning of the guard of `divAll`: the single operand of `(/ z)` is an exact zero, or some operand after the
+first is an exact zero and every operand before it is exact -/
+theorem guard_iff (xs : List Num) : (exactDivisors xs).any isExactZero = true ↔
+    (∃ z, xs = [z] ∧ z.isExact = true ∧ z.num = 0) ∨
+    (∃ x pre z post, xs = x :: (pre ++ z :: post) ∧ x.isExact = true ∧ (∀ y ∈ pre, y.isExact = true) ∧
+      z.isExact = true ∧ z.num = 0) := by
+  constructor
+  · intro h
+    match xs, h with
+    | [], h => simp [exactDivisors] at h
+    | [z], h =>
+      left
+      refine ⟨z, rfl, ?_⟩
+      apply isExactZero_iff.mp
+      simp only [exactDivisors] at h
+      split at h
+      · simpa using h
+      · simp at h
+    | x :: y :: rest, h =>
+      right
+      rw [exactDivisors_cons (by simp)] at h
+      split at h
+      · rename_i hx
+        obtain ⟨z, hz, h0⟩ := List.any_eq_true.mp h
+        obtain ⟨pre, post, he, hpre⟩ := mem_takeWhile_split hz
+        obtain ⟨ez, nz⟩ := isExactZero_iff.mp h0
+        exact ⟨x, pre, z, post, by rw [he], by rwa [← notReal_eq_isExact],
+          fun y hy => by rw [← notReal_eq_isExact]; exact hpre y hy, ez, nz⟩
+      · simp at h
+  · rintro (⟨z, rfl, ez, nz⟩ | ⟨x, pre, z, post, rfl, ex, epre, ez, nz⟩)
+    · have : z.notReal = true := by rw [notReal_eq_isExact]; exact ez
+      simp [exactDivisors, this, isExactZero_iff.mpr ⟨ez, nz⟩]
+    · rw [exactDivisors_cons (by simp), if_pos (by rw [notReal_eq_isExact]; exact ex),
+        List.takeWhile_append_of_pos (fun y hy => by rw [notReal_eq_isExact]; exact epre y hy),
+        List.takeWhile_cons, if_pos (by rw [notReal_eq_isExact]; exact ez)]
+      simp [isExactZero_iff.mpr ⟨ez, nz⟩]
+
+/-- `div` never panics: its only error is `divZero` -/
+theorem div_error {a b : Num} {e : Err} (h : div a b = .error e) : e = .divZero := by
+  by_cases ea : a.isExact = true
+  · by_cases eb : b.isExact = true
+    · rw [div_exact ea eb] at h
+      split at h; · cases h; rfl
+      split at h; · cases h; rfl
+      split at h; · cases h; rfl
+      rename_i h1 h2 h3
+      obtain ⟨r, hr⟩ := exactRatio_isOk (n := a.num * b.den) (Int.mul_ne_zero h2 h1)
+      rw [hr] at h; cases h
+    · rw [div_real (Or.inr (by simpa using eb))] at h; cases h
+  · rw [div_real (Or.inl (by simpa using ea))] at h; cases h
+
+theorem foldlM_div_real : ∀ (ys : List Num) (f : Float32), ∃ g, ys.foldlM div (.real f) = .ok (.real g)
+  | [], f => ⟨f, rfl⟩
+  | y :: ys, f => by
+    rw [List.foldlM_cons, div_real (Or.inl rfl)]
+    exact foldlM_div_real ys _
+
+theorem foldlM_div_error : ∀ {ys : List Num} {init : Num} {e : Err}, ys.foldlM div init = .error e → e = .divZero
+  | [], _, _, h => by cases h
+  | y :: ys, init, e, h => by
+    rw [List.foldlM_cons] at h
+    cases hd : div init y with
+    | error e' => rw [hd] at h; cases h; exact div_error hd
+    | ok m => rw [hd] at h; exact foldlM_div_error h
+
+/-- the plain fold over exact operands up to an exact zero divisor: `divZero`, unless a quotient before it has left
+the exact range, and then the result is a real -/
+theorem foldlM_div_exact_zero {z : Num} {post : List Num} (ez : z.isExact = true) (nz : z.num = 0) :
+    ∀ {pre : List Num} {init : Num}, (∀ y ∈ pre, y.isExact = true) →
+      (pre ++ z :: post).foldlM div init = .error .divZero ∨
+        ∃ g, (pre ++ z :: post).foldlM div init = .ok (.real g)
+  | pre, .real f, _ => Or.inr (foldlM_div_real _ f)
+  | [], .int i, _ => by
+    left
+    rw [List.nil_append, List.foldlM_cons, div_exact rfl ez, if_pos nz]; rfl
+  | [], .rat n d, _ => by
+    left
+    rw [List.nil_append, List.foldlM_cons, div_exact rfl ez, if_pos nz]; rfl
+  | p :: pre, .int i, h => by
+    rw [List.cons_append, List.foldlM_cons]
+    cases hd : div (.int i) p with
+    | error e => left; rw [div_error hd]; rfl
+    | ok m => exact foldlM_div_exact_zero ez nz (fun y hy => h y (List.mem_cons_of_mem _ hy))
+  | p :: pre, .rat n d, h => by
+    rw [List.cons_append, List.foldlM_cons]
+    cases hd : div (.rat n d) p with
+    | error e => left; rw [div_error hd]; rfl
+    | ok m => exact foldlM_div_exact_zero ez nz (fun y hy => h y (List.mem_cons_of_mem _ hy))
+
+/-- `divAll` and the plain fold differ only when a quotient overflowed into a real before an exact zero divisor -/
+theorem divAll_ne_divFold {xs : List Num} (h : divAll xs ≠ divFold xs) :
+    divAll xs = .error .divZero ∧ ∃ g, divFold xs = .ok (.real g) := by
+  cases hg : (exactDivisors xs).any isExactZero with
+  | false => exact absurd (divAll_of_not_guard hg) h
+  | true =>
+    have hd := divAll_of_guard hg
+    refine ⟨hd, ?_⟩
+    rw [hd] at h
+    rcases (guard_iff xs).mp hg with ⟨z, rfl, ez, nz⟩ | ⟨x, pre, z, post, rfl, ex, epre, ez, nz⟩
+    · exfalso; apply h
+      show _ = div (.int 1) z
+      rw [div_exact rfl ez, if_pos nz]
+    · rw [divFold_cons x (by simp)] at h ⊢
+      rcases foldlM_div_exact_zero (post := post) ez nz (init := x) epre with h' | h'
+      · exact absurd h'.symm h
+      · exact h'
+
+theorem divFold_wf {xs : List Num} {r : Num} (h : divFold xs = .ok r) : r.WF := by
+  match xs, h with
+  | [x], h => exact div_wf h
+  | x :: y :: rest, h =>
+    rw [divFold_cons x (by simp), List.foldlM_cons] at h
+    cases hs : div x y with
+    | error e => rw [hs] at h; cases h
+    | ok i =>
+      rw [hs] at h
+      exact foldlM_wf (fun _ _ _ => div_wf) rest i r (div_wf hs) h
+
 end Num
 end Ruschm
